@@ -312,7 +312,11 @@ fn wide_programs() -> Vec<Ast> {
         v.push(Ast::List(leaves.clone()));
         v.push(Ast::Stmt(leaves.clone()));
         v.push(Ast::Map((0..n).map(|i| (wide_leaf(2 * i), wide_leaf(2 * i + 1))).collect()));
-        v.push(Ast::Binary("in".into(), Box::new(wide_leaf(1000)), Box::new(Ast::List(leaves.clone()))));
+        // membership: absent, and equal to the first / middle / last element (every element is
+        // still evaluated, whatever the answer)
+        for needle in [1000, 0, n / 2, n - 1] {
+            v.push(Ast::Binary("in".into(), Box::new(wide_leaf(needle)), Box::new(Ast::List(leaves.clone()))));
+        }
         // a left-leaning operator chain over the logging infix operator
         let mut chain = wide_leaf(0);
         for i in 1..n {
